@@ -71,6 +71,10 @@ func (q *rtspRequester) request(path string, arm func()) (string, *media.Stream,
 		return "panic", nil, "the RTSP requester got neither a stream nor 404: " + err.Error()
 	}
 	q.tracks = len(d.Tracks)
+	// ipchub answers PLAY before it attaches the player to the stream; what is
+	// published in between is legitimately not for this player. Wait for the attach
+	// (unless the stream is already gone again).
+	waitCond(func() bool { return srv.Consumers(path) != 0 })
 	return "stream", nil, d.SDP
 }
 
@@ -118,7 +122,17 @@ func (q *rtspRequester) verifyWire(sentAll, live []fakecam.Frame, push func() *f
 		}
 		if time.Now().After(deadline) {
 			cp := q.c.Captured()
-			return fmt.Sprintf("the RTSP player received %d frames and not the last of the %d live frames within %v (captured %d bytes, unparsed %d)", len(got), len(live), bound, len(cp), q.c.Unparsed())
+			desc := ""
+			for _, g := range got {
+				idx := -1
+				for i, f := range sentAll {
+					if string(f.Data) == string(g.Payload) {
+						idx = i
+					}
+				}
+				desc += fmt.Sprintf("%d/ch%d ", idx, g.Channel)
+			}
+			return fmt.Sprintf("the RTSP player received %d frames and not the last of the %d live frames (programme index %d) within %v (captured %d bytes, unparsed %d); programme indices received: %s", len(got), len(live), len(sentAll)-1, bound, len(cp), q.c.Unparsed(), desc)
 		}
 		it, err := q.c.ReadItemTimeout(50 * time.Millisecond)
 		if err == rtspc.ErrTimeout {
@@ -165,6 +179,8 @@ func (q *rtspRequester) verifyWire(sentAll, live []fakecam.Frame, push func() *f
 	return ""
 }
 
+func (q *rtspRequester) setFeed(func()) {}
+
 func (q *rtspRequester) release() {
 	if q.c != nil {
 		q.c.Close()
@@ -176,6 +192,7 @@ func (q *rtspRequester) release() {
 
 type httpRequester struct {
 	ext  string
+	feed func()
 	resp *http.Response
 	mu   sync.Mutex
 	got  []byte
@@ -187,7 +204,24 @@ var httpClient = &http.Client{Transport: &http.Transport{DisableKeepAlives: true
 func (q *httpRequester) request(path string, arm func()) (string, *media.Stream, string) {
 	s := server()
 	arm()
+	answered := make(chan struct{})
+	fed := make(chan struct{})
+	go func() { // keep the camera sending until the answer has left the server
+		defer close(fed)
+		for {
+			select {
+			case <-answered:
+				return
+			case <-time.After(2 * time.Millisecond):
+				if q.feed != nil {
+					q.feed()
+				}
+			}
+		}
+	}()
 	resp, err := httpClient.Get(s.HTTP() + "/streams" + path + q.ext)
+	close(answered)
+	<-fed
 	if err != nil {
 		return "panic", nil, "the HTTP requester got no answer: " + err.Error()
 	}
@@ -195,7 +229,7 @@ func (q *httpRequester) request(path string, arm func()) (string, *media.Stream,
 	q.done = make(chan struct{})
 	go func() {
 		defer close(q.done)
-		buf := make([]byte, 32<<10)
+		buf := make([]byte, 256) // small: a chunked body reader blocks until its buffer is full or the chunk ends
 		for {
 			n, err := resp.Body.Read(buf)
 			q.mu.Lock()
@@ -222,7 +256,7 @@ func (q *httpRequester) request(path string, arm func()) (string, *media.Stream,
 
 func (q *httpRequester) verifyWire(sentAll, live []fakecam.Frame, push func() *fakecam.Frame) string {
 	if q.resp == nil || q.ext != ".flv" || q.resp.StatusCode != 200 {
-		return ""
+		return "" // (also: 404 because the stream has no FLV form)
 	}
 	ok := waitCond(func() bool {
 		q.mu.Lock()
@@ -232,7 +266,7 @@ func (q *httpRequester) verifyWire(sentAll, live []fakecam.Frame, push func() *f
 	q.mu.Lock()
 	defer q.mu.Unlock()
 	if !ok || !bytes.HasPrefix(q.got, []byte{'F', 'L', 'V', 1}) {
-		return fmt.Sprintf("the HTTP-FLV requester received %d bytes that do not start with an FLV header: % x", len(q.got), q.got[:min(len(q.got), 16)])
+		return fmt.Sprintf("the HTTP-FLV requester received %d bytes that do not start with an FLV header: % x (status %d, header %v)", len(q.got), q.got[:min(len(q.got), 16)], q.resp.StatusCode, q.resp.Header)
 	}
 	return ""
 }
@@ -247,6 +281,8 @@ func waitCond(f func() bool) bool {
 	}
 	return true
 }
+
+func (q *httpRequester) setFeed(feed func()) { q.feed = feed }
 
 func (q *httpRequester) release() {
 	if q.resp != nil {
